@@ -19,9 +19,9 @@ import (
 type stressLog struct {
 	mu      sync.Mutex
 	seq     int64
-	sends   map[[2]int]int   // (uid, event value) -> count
-	sendSeq map[int][]int64  // uid -> seqs of Send entries
-	clean   map[int][]int64  // uid -> seqs of cleanups
+	sends   map[[2]int]int  // (uid, event value) -> count
+	sendSeq map[int][]int64 // uid -> seqs of Send entries
+	clean   map[int][]int64 // uid -> seqs of cleanups
 }
 
 type ssub struct {
